@@ -1,65 +1,35 @@
 package c09
 
-// Findings of C09: switches, signatures, reproducers. (The text below is what
-// harness/c09/FINDINGS.md says; it is kept next to the switches it explains.)
+// Findings of C09: history, reproducers, and the (currently empty) list of
+// open-finding switches.
 //
-// All three findings were re-derived by the check itself: TestImmutableSequences
-// with the exclusion switches off (C09_IGNORE_OPEN=F14 …) alarms after 35 (F14)
-// and 45 (F15) sequences; F16 alarmed as well before /repo commit 17a3ef9. The
-// committed replays are hand-minimised versions (TestWriteFindingReplays).
+// F14, F15 and F16 were re-derived by this check itself on the tree as it was
+// before the repairs (TestImmutableSequences generating the patterns freely:
+// first alarm after 35 sequences for F14, 45 for F15; F16 alarmed before
+// 17a3ef9). All three are REPAIRED in /repo; the model gives the derived arrays
+// the semantics the property demands - fresh mutable arrays sharing nothing
+// with the immutable one - the generator exercises them fully, and the
+// hand-minimised reproducers (TestWriteFindingReplays) are regression replays
+// under replays/C09/fixed, run by TestRegressions in every tier.
 //
-// F14 (OPEN) — a slice of an immutable array is a mutable window onto the
-// immutable storage.
+// F14 (fixed by /repo 8401ffd) - a slice of an immutable array was a mutable
+// window onto the immutable storage (vm.go OpSliceIndex, case *ImmutableArray):
 //
-//	root := immutable([1, 2, 3]); h1 := root[0:2]; h1[0] = 42     // root is [42, 2, 3]
-//	root := immutable([1, 2, 3]); h1 := root[:0]; h2 := append(h1, 42)  // root is [42, 2, 3]
+//	root := immutable([1, 2, 3]); h1 := root[0:2]; h1[0] = 42            // root was [42, 2, 3]
+//	root := immutable([1, 2, 3]); h1 := root[:0]; h2 := append(h1, 42)   // root was [42, 2, 3]
 //
-// Expected: root stays [1, 2, 3]; the slice is handed out as a mutable array, so
-// writing it is legal, it just must not reach root.
-// Where: /repo/vm.go OpSliceIndex, case *ImmutableArray:
-// &Array{Value: left.Value[lowIdx:highIdx]} aliases left.Value.
-// Minimal fix (copy instead of alias):
+// F15 (fixed by /repo 8401ffd) - append to an immutable array whose backing
+// slice had spare capacity (literals of 3, 5, 6, 7, 9... elements, results of
+// append/copy, slices) returned a mutable array on the same backing array
+// (builtins.go builtinAppend, case *ImmutableArray):
 //
-//	elems := make([]Object, highIdx-lowIdx)
-//	copy(elems, left.Value[lowIdx:highIdx])
-//	var val Object = &Array{Value: elems}
+//	root := immutable([1, 2, 3]); h1 := append(root, 0); h1[0] = 42      // root was [42, 2, 3]
 //
-// F15 (OPEN) — append to an immutable array may alias the immutable storage.
+// F16 (fixed by /repo 17a3ef9) - immutable-array + immutable-array aliased the
+// left operand, always with an empty right operand, else when capacity allowed
+// (objects.go (*ImmutableArray).BinaryOp):
 //
-//	root := immutable([1, 2, 3])   // literal: len 3, cap 4 (OpArray grows by append)
-//	h1 := append(root, 0); h1[0] = 42                               // root is [42, 2, 3]
-//
-// Happens whenever the immutable array's backing slice has spare capacity
-// (literals of 3, 5, 6, 7, 9… elements, results of append/copy, slices); with
-// immutable([1, 2]) Go's append reallocates and nothing is shared. Two appends
-// to the same immutable array also overwrite each other's last element.
-// Where: /repo/builtins.go builtinAppend, case *ImmutableArray:
-// &Array{Value: append(arg.Value, args[1:]...)}.
-// Minimal fix:
-//
-//	elems := make([]Object, 0, len(arg.Value)+len(args)-1)
-//	elems = append(elems, arg.Value...)
-//	elems = append(elems, args[1:]...)
-//	return &Array{Value: elems}, nil
-//
-// F16 (FIXED by /repo 17a3ef9) — immutable-array + immutable-array aliased the
-// left operand (always with an empty right operand, else when capacity allowed).
-//
-//	root := immutable([1, 2, 3]); h1 := root + immutable([0]); h1[0] = 42   // root was [42, 2, 3]
-//
-// Where: /repo/objects.go (*ImmutableArray).BinaryOp, append(o.Value, rhs.Value...).
-// The switch is off, sums are written through, the reproducers are regression
-// replays under replays/C09/fixed.
-//
-// How open findings are kept out of the run: the model gives slices / append
-// results / sums of immutable arrays the semantics the property demands (a
-// fresh mutable array) but remembers that they were carved out of sealed
-// immutable storage (astore.via, astore.taint). While a finding is open,
-// operations that would write through such an array or append to it in place
-// (index / compound / ++ assignment, append, +, splice, for-in writes) are not
-// generated: the draw is counted with ev.Discard("known:F14"/"known:F15") and
-// another action is drawn. Deriving such arrays, reading, copying, freezing,
-// spreading and wrapping them stays in.
+//	root := immutable([1, 2, 3]); h1 := root + immutable([0]); h1[0] = 42 // root was [42, 2, 3]
 //
 // Observations that are NOT findings (outside the property's proviso or
 // documented behaviour; the model follows the implementation):
@@ -72,6 +42,9 @@ package c09
 //     even ImmutableArray ones, arrive as MUTABLE arrays/maps in the script; only
 //     the table itself is immutable. The check verifies the top-level refusal and
 //     that the host's Attrs never change.
+//   - append(a, x) on a MUTABLE array still works in place when capacity allows
+//     (two appends to the same array overwrite each other's element): F1's
+//     family, not C09's; the model treats it as "contents unknown" (fuzzy).
 
 import (
 	"encoding/json"
@@ -80,28 +53,19 @@ import (
 	"testing"
 )
 
-// openFindings: the generator does not write through arrays that the present
-// implementation carves out of immutable storage. Turn an entry off once the
-// defect is repaired in /repo (and move its replays from replays/C09/open to
-// replays/C09/fixed).
-var openFindings = map[string]bool{
-	"F14": true, // immutable-array[l:h] aliases the immutable storage
-	"F15": true, // append(immutable-array, …) may alias it (spare capacity)
-	// F16 (immutable-array + immutable-array aliased the left operand) was
-	// repaired in /repo by 17a3ef9; its replays live in replays/C09/fixed.
-	"F16": false,
-}
+// openFindings: switches of findings that are still open in /repo (BUILDING.md
+// rule 3). None at present. A new one gets: an entry here, a predicate in the
+// generator that excludes exactly its pattern (counted with
+// ev.Discard("known:<id>")), a line in knownWhat, and a reproducer under
+// replays/C09/open (TestKnownFindings prints KNOWN-FINDING while it fails).
+var openFindings = map[string]bool{}
 
-// knownWhat: call site + input pattern of each finding (KNOWN-FINDING lines).
-var knownWhat = map[string]string{
-	"F14": "site=vm.OpSliceIndex(*ImmutableArray) input=slice of an immutable array, then a write or append through the slice: the immutable array changes",
-	"F15": "site=builtins.builtinAppend(*ImmutableArray) input=append to an immutable array with spare capacity, then a write through the result: the immutable array changes",
-	"F16": "site=objects.(*ImmutableArray).BinaryOp(+) input=immutable-array + immutable-array, then a write through the result: the left operand changes",
-}
+// knownWhat: call site + input pattern of each open finding.
+var knownWhat = map[string]string{}
 
 // TestWriteFindingReplays (C09_WRITE_REPLAYS=<dir>) writes the hand-minimised
 // reproducers of F14-F16 in replay format; this is how the files under
-// replays/C09/open and replays/C09/fixed were made.
+// replays/C09/fixed were made.
 func TestWriteFindingReplays(t *testing.T) {
 	dir := os.Getenv("C09_WRITE_REPLAYS")
 	if dir == "" {
